@@ -1,6 +1,70 @@
-"""C17 — decided on the serial dependency engine; see deps_check.py (shared body) and DESIGN §7."""
+"""C17 — decided on the serial dependency engine; see deps_check.py (shared body) and DESIGN §7.
+Plus a process-level scenario: the queries run from several working directories name the same files."""
 import deps_check
+from common import *
 from c_deps_common import *
 
+
+def cwd_scenario(viol):
+    """redo-ood / redo-targets / redo-sources print names relative to the directory they are run in: resolved against
+    that directory, the three lists are the same sets from every directory (here `lib/` and `libexec/`, whose paths
+    share a string prefix, a directory with a sibling `lib.do`-like name, and the top), and after an edit
+    everything a following redo-ifchange rebuilds was named by redo-ood run there."""
+    from proj import Project
+    pr = Project()
+    try:
+        for d in ("lib", "libexec", "doc"):
+            os.makedirs(pr.path(d))
+        pr.write("lib/a.src", "1\n")
+        pr.write("libexec/b.src", "1\n")
+        pr.write("lib/a.do", "redo-ifchange a.src\ncat a.src\n")
+        pr.write("libexec/b.do", "redo-ifchange b.src\ncat b.src\n")
+        pr.write("docs.do", "redo-ifchange lib/a\necho docs\n")
+        pr.write("doc/x.do", "redo-ifchange ../libexec/b\necho x\n")
+        pr.write("all.do", "redo-ifchange lib/a libexec/b docs doc/x\necho all\n")
+        rc, o, e = pr.run(["redo", "all"])
+        problems = []
+        if rc != 0:
+            problems.append("set-up build failed: " + e[-300:])
+
+        def listing(cmd, cwd):
+            rc, o, e = pr.run([cmd], cwd=cwd)
+            if rc != 0:
+                problems.append("%s in %s exited %d" % (cmd, cwd, rc))
+            return sorted(os.path.normpath(os.path.join(cwd, l)) for l in o.split("\n") if l)
+        for rnd in (1, 2):
+            ref = {}
+            for cwd in (".", "lib", "libexec", "doc"):
+                for cmd in ("redo-targets", "redo-sources", "redo-ood"):
+                    got = listing(cmd, cwd)
+                    if cmd not in ref:
+                        ref[cmd] = got
+                    elif got != ref[cmd]:
+                        problems.append("%s run in %s/ names %s, run at the top it names %s" % (cmd, cwd, [x for x in got if x not in ref[cmd]] or got, [x for x in ref[cmd] if x not in got] or ref[cmd]))
+            want_t = ["all", "doc/x", "docs", "lib/a", "libexec/b"]
+            if ref.get("redo-targets") != want_t:
+                problems.append("redo-targets names %s, the targets are %s" % (ref.get("redo-targets"), want_t))
+            if rnd == 1:
+                if ref.get("redo-ood"):
+                    problems.append("redo-ood names %s right after a build" % ref["redo-ood"])
+                pr.write("libexec/b.src", "2\n")
+            else:
+                if ref.get("redo-ood") != ["all", "doc/x", "libexec/b"]:
+                    problems.append("after editing libexec/b.src redo-ood names %s, a rebuild runs all, doc/x, libexec/b" % ref.get("redo-ood"))
+            if problems:
+                break
+        if problems:
+            p = write_replay("C17", "cwd", dict(kind="impl-monitor", problems=problems, tree="lib/a libexec/b docs doc/x all; queries run in ., lib, libexec, doc"))
+            viol.append(Violation("C17", p, "queries from several working directories: " + "; ".join(problems[:2])))
+    finally:
+        pr.destroy()
+
+
 def run(ctx):
-    return deps_check.run_property(ctx, "C17", FEATURES["C17"], NCASES["C17"], WANT["C17"], known_matcher=KNOWN.get("C17"))
+    viol = ctx.setdefault("violations", [])
+    cwd_scenario(viol)
+    if viol:
+        return dict(evaluations=1, distinct_nontrivial=1, rule="queries from several working directories", samples=[])
+    cov = deps_check.run_property(ctx, "C17", FEATURES["C17"], NCASES["C17"], WANT["C17"], known_matcher=KNOWN.get("C17"))
+    cov["rule"] = "queries run from four working directories of one project (string-prefix sibling directories), before and after an edit; " + cov.get("rule", "")
+    return cov
